@@ -59,6 +59,8 @@ type namedTerm struct {
 }
 
 type Exec struct {
+	cfn         *ssa.Function // closure whose contract is being evaluated at a call site
+	cbind       []Val
 	olderAtLoad bool
 	part      int
 	partPos   int
